@@ -25,7 +25,30 @@ def gen_shape(rng):
     shape = gen.random_shape(rng, recursive=recursive, n_nts=(1, 4), rules_per_nt=(1, 3), n_nodes=(0, 3), n_edges=(0, 4),
                              max_arity=2, start_arity=(0, 2), dom_sizes=(1, 2, 3, 2), p_isolated=0.3, p_ruleless=0.2, p_rep_ext=0.08,
                              weights=lambda r: r.choice(VIT_W), max_cells=200)
+    if rng.random() < 0.4:
+        # a factor given as a PATTERNED tensor with a FINITE default (what json_to_fgg builds from a patterned weights specification):
+        # every entry whose first index is 0 equals a finite log-weight d and is backed by nothing (vaxes 1 + k + 0, default d)
+        cands = [i for i, ty in enumerate(shape['terms']) if ty and shape['nls'][ty[0]] >= 2]
+        if cands:
+            i = rng.choice(cands)
+            d = rng.choice([-1.0, -2.0, 0.0, -3.0])
+            rest = len(shape['weights'][i]) // shape['nls'][shape['terms'][i][0]]
+            shape['weights'][i] = [d] * rest + shape['weights'][i][rest:]
+            shape['_patterned'] = [[i, d]]
     return shape
+
+
+def patternize(shape, fgg, info):
+    """replace the weights of the factors listed in shape['_patterned'] by the equivalent patterned tensor (same dense tensor)"""
+    from fggs.indices import PatternedTensor, PhysicalAxis, SumAxis
+    for i, d in shape.get('_patterned', []):
+        fac = fgg.factors[info['TL'][i].name]
+        dense = fac.weights.to_dense()
+        n = dense.shape[0]
+        k = PhysicalAxis(n - 1)
+        others = [PhysicalAxis(s_) for s_ in dense.shape[1:]]
+        fac.weights = PatternedTensor(dense[1:].clone(), (k, *others), (SumAxis(1, k, 0), *others), d)
+        assert torch.equal(fac.weights.to_dense(), dense)
 
 
 def enc_deriv(d, shape, info):
@@ -120,6 +143,7 @@ def run(ctx):
                          rules=[dict(lhs=0, nodes=[0], ext=[], edges=[('t', 1, [0]), ('t', 0, [0])])], weights={0: [3.0, math.inf], 1: [0.0, -math.inf]})
         elif k % 25 == 3:
             shape['weights'] = {i: [math.inf if ctx.rng.random() < 0.15 else x for x in w] for i, w in shape['weights'].items()}
+            shape.pop('_patterned', None)
         posneg = any(x == math.inf for w in shape['weights'].values() for x in w) and any(x == -math.inf for w in shape['weights'].values() for x in w)
         rec, lin = sccs_and_linearity(shape)
         rep = ctx.driver.ask(f'C02.iterate viterbi {gen.enc_shape(shape)} 200')
@@ -129,6 +153,9 @@ def run(ctx):
         if not stable:
             continue
         fgg, info = semgen.build(shape, 'viterbi', torch.float64, ids='implicit')
+        patternize(shape, fgg, info)
+        if shape.get('_patterned'):
+            ctx.count('patterned-factor-with-finite-default')
         start_ty = shape['nts'][shape['start']]
         sizes = [shape['nls'][l] for l in start_ty]
         import itertools
